@@ -142,6 +142,14 @@ def tr_expr(node, env: Env):
 
 
 def tr_cond(node, env):
+    if isinstance(node, ast.BoolOp):
+        parts = [tr_cond(v, env) for v in node.values]
+        out = parts[0]
+        for p_ in parts[1:]:
+            out = ("or" if isinstance(node.op, ast.Or) else "and", out, p_, "bool")
+        return out
+    if isinstance(node, ast.UnaryOp) and isinstance(node.op, ast.Not):
+        return ("not", tr_cond(node.operand, env), "bool")
     if isinstance(node, ast.Compare) and len(node.ops) == 1:
         a, b = tr_expr(node.left, env), tr_expr(node.comparators[0], env)
         return ("cmp", type(node.ops[0]).__name__, a, b, "bool")
@@ -241,9 +249,10 @@ def fp_const(x: float):
 class BitPrecise:
     """IR -> SMT-LIB term.  ints are non-negative BV64 (side conditions are the caller's)."""
 
-    def __init__(self, L=None, n_term=None):
+    def __init__(self, L=None, n_term=None, round_nd_term=None):
         self.L = L
         self.n = n_term          # BV term: numeric value of the whole digit string
+        self.round_nd_term = round_nd_term   # E2: round(x, k) for x within 1e-9 of a k-decimal value
 
     def f(self, ir):
         """term of float type (ints are converted exactly; caller keeps them < 2^53)."""
@@ -270,6 +279,8 @@ class BitPrecise:
             return "(fp.abs %s)" % self.f(ir[1])
         if op == "neg":
             return "(fp.neg %s)" % self.f(ir[1])
+        if op == "round_nd" and self.round_nd_term is not None and 3 <= ir[2] <= 9:
+            return self.round_nd_term
         raise Unsupported("bit-precise float op %s" % op)
 
     def i(self, ir):
@@ -315,6 +326,10 @@ class BitPrecise:
         raise Unsupported("bit-precise int op %s" % op)
 
     def c(self, ir):
+        if ir[0] in ("or", "and"):
+            return "(%s %s %s)" % (ir[0], self.c(ir[1]), self.c(ir[2]))
+        if ir[0] == "not":
+            return "(not %s)" % self.c(ir[1])
         _, op, a, b, _ = ir
         if typ(a) == "str" or typ(b) == "str":
             # only comparisons of a slice with the empty string are supported (length is concrete)
